@@ -126,7 +126,8 @@ def optimize_high_level_cmd_stream(sg, arch):
             # LUT is already in SHRAM, no need to perform DMA
             lut_tens.equivalence_id = existing_tens.equivalence_id
             lut_tens.address = existing_tens.address
-            cmd.ps.primary_op.activation.lut_index = get_lut_index(arch, existing_tens)
+            # the index counts slots of slot_size bytes whatever the size of the table, as for a newly placed table below
+            cmd.ps.primary_op.activation.lut_index = (existing_tens.address - lut_start) // slot_size
             continue
         # Place the LUT in the last 2 blocks of SHRAM
         # Alignment is always on the size of the LUT, 256 for 256-byte LUT, 1K for 1K LUT, etc
